@@ -1382,6 +1382,89 @@ fn sessions(n: usize, scratch: &str) {
     let _ = std::fs::remove_dir_all(&scr_path);
 }
 
+
+// ------------------------------------------------------------------ two compilers with different backends on one thread
+
+fn compile_plain(backend: impl uiua::IntoSysBackend, mode: PreEvalMode, src: &str) -> (String, String) {
+    let r = catch(|| {
+        let mut c = Compiler::with_backend(backend);
+        c.pre_eval_mode(mode);
+        c.print_diagnostics(false);
+        let res = c.load_str(src).map(|_| ()).map_err(|e| e.to_string());
+        (res, format!("{:?}", c.assembly().root).chars().take(200).collect::<String>())
+    });
+    match r {
+        Ok((Ok(()), root)) => ("ok".into(), root),
+        Ok((Err(e), root)) => (format!("error: {}", e.lines().next().unwrap_or("")), root),
+        Err(p) => (format!("PANIC: {p}"), String::new()),
+    }
+}
+
+/// The pre-evaluation cache (pre_eval.rs comptime_node) is thread-local and keyed on the node: a first
+/// compiler whose backend ALLOWS a read evaluates a snippet at compile time, then a second compiler on
+/// the same thread whose backend DENIES everything compiles the same snippet.  No cache bypass here.
+fn two_compilers(scratch: &str) {
+    uiua::verif::c12::set_bypass(0);
+    let scr_path = PathBuf::from(scratch);
+    prepare_scratch(&scr_path);
+    let scr = scr_path.display().to_string();
+    let mut histories = 0usize;
+    let cases: Vec<(&str, String)> = vec![
+        ("freadstr", format!("&fras \"{scr}/in.txt\"")),
+        ("freadbytes", format!("&frab \"{scr}/in.txt\"")),
+        ("flistdir", format!("&fld \"{scr}\"")),
+        ("var", "&var \"HOME\"".to_string()),
+        ("fexists", format!("&fe \"{scr}/in.txt\"")),
+    ];
+    for (label, src) in &cases {
+        for first_kind in ["allowing-recorder", "native"] {
+            for second_mode in [PreEvalMode::Lsp, PreEvalMode::Normal] {
+                histories += 1;
+                // distinct text per history so that earlier histories do not feed the cache
+                let src1 = format!("{{\"history {histories}\" {src}}}\n");
+                let path = format!("{scr}/in.txt");
+                let (first_res, first_root) = if first_kind == "native" {
+                    compile_plain(uiua::NativeSys, PreEvalMode::Lsp, &src1)
+                } else {
+                    let (rec, _l) = Rec::with_files(true, &[(path.as_str(), "SECRET-OF-THE-FIRST-BACKEND")]);
+                    compile_plain(rec, PreEvalMode::Lsp, &src1)
+                };
+                let (deny, dlog) = Rec::new(false);
+                let (res2, root2) = compile_plain(deny, second_mode, &src1);
+                let calls = methods_of(&take_log(&dlog));
+                // reference: the same deny compile on a thread that never saw the first compiler
+                let src_ref = src1.clone();
+                let reference = std::thread::spawn(move || {
+                    uiua::verif::c12::set_bypass(0);
+                    let (deny, _l) = Rec::new(false);
+                    compile_plain(deny, second_mode, &src_ref)
+                })
+                .join()
+                .unwrap_or(("thread failed".into(), String::new()));
+                let leaked = root2 != reference.1;
+                println!(
+                    "{{\"k\":\"two\",\"snippet\":{},\"first\":\"{first_kind}\",\"second_mode\":\"{}\",\"first_root\":{},\"second_root\":{},\"reference_root\":{},\"second_calls\":{},\"differs\":{leaked}}}",
+                    jstr(label), mode_name(second_mode), jstr(&first_root), jstr(&root2), jstr(&reference.1), jlist(calls.clone())
+                );
+                if leaked {
+                    println!(
+                        "{{\"k\":\"violation\",\"key\":{},\"ctx\":\"two-compilers\",\"snippet\":{},\"mode\":\"{}\",\"methods\":{},\"calls\":{},\"program\":{},\"result\":{}}}",
+                        jstr(&format!("two-compilers/pre-eval-cache-crosses-backends/{}", mode_name(second_mode).to_lowercase())),
+                        jstr(label),
+                        mode_name(second_mode),
+                        jlist(calls),
+                        jstr(&format!("compiler 1 ({first_kind} backend, Lsp) compiled it to `{first_root}` [{first_res}]; compiler 2 (deny-all backend, same thread) compiled the same text to `{root2}` [{res2}] although its backend refused every call; on a fresh thread a deny-all compiler gives `{}`", reference.1)),
+                        jstr(&src1),
+                        jstr(&res2)
+                    );
+                }
+            }
+        }
+    }
+    println!("{{\"k\":\"summary\",\"histories\":{histories}}}");
+    let _ = std::fs::remove_dir_all(&scr_path);
+}
+
 // ------------------------------------------------------------------ the gate functions on exported trees
 
 fn collect_nodes<'a>(n: &'a Node, out: &mut Vec<&'a Node>, budget: &mut usize) {
@@ -1588,6 +1671,7 @@ fn main() {
         "compile" => compile_search(n, &scratch),
         "gate" => gate(n, &scratch),
         "session" => sessions(n, &scratch),
+        "twocomp" => two_compilers(&scratch),
         "leak-demo" => {
             // consequence of the comptime_depth leak: after N rejected code-macro snippets a valid macro is refused
             let (mut comp, _log) = new_session_compiler(PreEvalMode::Normal);
